@@ -9,6 +9,7 @@ package c17
 
 import (
 	"fmt"
+	"time"
 
 	"verifharness/internal/core"
 )
@@ -23,6 +24,7 @@ func exhaustive(r *core.Run, sc scenario, tag string, limit int) int {
 		o := runScenario(sc, script, true)
 		n++
 		r.Begin(sc.key()+fmt.Sprint(script), len(o.trace) > 0, "mode:"+tag)
+		tagCreation(r, sc)
 		r.Diff(o.line, o.impl)
 		judge(r, o)
 		if o.deadlock {
@@ -39,6 +41,26 @@ func exhaustive(r *core.Run, sc scenario, tag string, limit int) int {
 			return n
 		}
 		script = append(full[:i:i], full[i]+1)
+	}
+}
+
+// tagCreation marks the cases in which at least two handles race to create the same missing ring.
+func tagCreation(r *core.Run, sc scenario) {
+	for p := range sc.rings {
+		if !sc.isMissing(p) {
+			continue
+		}
+		n := 0
+		for _, t := range sc.threads {
+			if t.path == p && len(t.ops) > 0 && t.ops[0].kind == 'O' {
+				n++
+			}
+		}
+		if n >= 2 {
+			r.Tag("ring-creation-race")
+			return
+		}
+		r.Tag("ring-creation")
 	}
 }
 
@@ -81,6 +103,14 @@ func genScenario(rd *core.Rand) scenario {
 	for i := 0; i < nr; i++ {
 		sc.rings = append(sc.rings, genRing(rd))
 	}
+	// ring creation: some rings do not exist yet; their writers begin with OpenKeyRingRW
+	sc.missing = make([]bool, nr)
+	for i := range sc.missing {
+		if rd.Chance(30) {
+			sc.missing[i] = true
+			sc.rings[i] = nil
+		}
+	}
 	nt := 2 + rd.Intn(2)
 	next := 10
 	for i := 0; i < nt; i++ {
@@ -91,6 +121,9 @@ func genScenario(rd *core.Rand) scenario {
 			}
 		} else {
 			t.ops = genOps(rd, 1+rd.Intn(3), &next, 4)
+			if sc.missing[t.path] || rd.Chance(10) {
+				t.ops = append([]opSpec{{kind: 'O'}}, t.ops...)
+			}
 		}
 		sc.threads = append(sc.threads, t)
 	}
@@ -100,6 +133,7 @@ func genScenario(rd *core.Rand) scenario {
 // regression corpus: the races the property is about
 func corpus() []scenario {
 	a := func(d int) opSpec { return opSpec{kind: 'A', data: d} }
+	o := opSpec{kind: 'O'}
 	return []scenario{
 		// two writers add to the same empty ring with the same stale snapshot (seqnum collision)
 		{rings: [][]initKey{{}}, threads: []threadSpec{{0, []opSpec{a(10)}}, {0, []opSpec{a(11), a(12)}}}},
@@ -111,15 +145,32 @@ func corpus() []scenario {
 		{rings: [][]initKey{{{2, true}}, {}}, threads: []threadSpec{{0, []opSpec{a(10)}}, {1, []opSpec{a(11)}}, {1, []opSpec{{kind: 'R'}}}}},
 		// same on the directory back end
 		{dir: true, rings: [][]initKey{{}}, threads: []threadSpec{{0, []opSpec{a(10), {kind: 'C', seq: 1}}}, {0, []opSpec{a(11), {kind: 'D', seq: 1}}}}},
+		// ring creation: two handles open the same not yet existing ring for writing and add a key each
+		// (the check-then-create of openKeyRing must be atomic: the loser of the race must find the winner's ring)
+		{rings: [][]initKey{nil}, missing: []bool{true}, threads: []threadSpec{{0, []opSpec{o, a(10)}}, {0, []opSpec{o, a(11)}}}},
+		// create + add + make current against a bare create, and a reader that may see the ring missing
+		{rings: [][]initKey{nil}, missing: []bool{true}, threads: []threadSpec{{0, []opSpec{o, a(10), {kind: 'C', seq: 1}}}, {0, []opSpec{o}}, {0, []opSpec{{kind: 'R'}}}}},
+		// the same race on the directory back end (flock)
+		{dir: true, rings: [][]initKey{nil}, missing: []bool{true}, threads: []threadSpec{{0, []opSpec{o, a(10)}}, {0, []opSpec{o, a(11)}}}},
+		// re-opening an existing ring writes nothing
+		{rings: [][]initKey{{{1, true}}}, threads: []threadSpec{{0, []opSpec{o, a(10)}}, {0, []opSpec{a(11), o}}}},
 	}
 }
 
 func run(r *core.Run) {
-	r.Rule = "scenarios = initial rings (0-2 keys in assorted states) + 2-3 handles (writers with 1-3 operations from add/setCurrent/setState/destroy, or readers) on the same or different rings over one shared back end; " +
+	r.Rule = "scenarios = initial rings (0-2 keys in assorted states, or not yet existing) + 2-3 handles (writers with 1-3 operations from add/setCurrent/setState/destroy, preceded by OpenKeyRingRW when the ring does not exist yet, or readers) on the same or different rings over one shared back end; " +
 		"modes: exhaustive (every interleaving of back-end calls under a deterministic scheduler), scripted (random schedule), free (real goroutines), procs (one OS process per handle on a shared directory), v1-shared (8 goroutines reading through one v1 handle with cache size 1 / unlimited / off); " +
 		"a case is non-trivial when at least one back-end call was made; distinct by scenario + schedule"
 	rd := r.Rand.Fork()
 	schedules := 0
+	// the race-detector build + run of the v1 shared-handle workload proceeds in the background (v1race.go)
+	raceJob := startV1Race(r)
+	phase := map[string]float64{}
+	t0 := time.Now()
+	lap := func(name string) {
+		phase[name] = float64(int(time.Since(t0).Seconds()*10+0.5)) / 10
+		t0 = time.Now()
+	}
 
 	// 0. deterministic witness of the cache aliasing defect (repo-patches/05)
 	runV1Aliasing(r)
@@ -128,6 +179,7 @@ func run(r *core.Run) {
 		schedules += exhaustive(r, sc, "corpus-exhaustive", 0)
 	}
 
+	lap("corpus")
 	// 2. exhaustive: two writers, every pair of short programs over the alphabet, every schedule
 	pairs := 0
 	next := 10
@@ -158,11 +210,18 @@ func run(r *core.Run) {
 			}
 		}
 		sc := scenario{rings: [][]initKey{core.Pick(rd, inits)}, threads: []threadSpec{{0, p1}, {0, p2}}}
+		if rd.Chance(25) {
+			// the same pair of writers on a ring that does not exist yet: "create + program" vs "create + program"
+			sc.rings, sc.missing = [][]initKey{nil}, []bool{true}
+			sc.threads[0].ops = append([]opSpec{{kind: 'O'}}, p1...)
+			sc.threads[1].ops = append([]opSpec{{kind: 'O'}}, p2...)
+		}
 		n := exhaustive(r, sc, "exhaustive", 0)
 		schedules += n
 		pairs += n
 	}
 
+	lap("exhaustive")
 	// 3. random scenarios under a random script, and free-running goroutines
 	n := r.N(120, 3000)
 	for i := 0; i < n; i++ {
@@ -174,18 +233,22 @@ func run(r *core.Run) {
 		}
 		o := runScenario(sc, script, true)
 		r.Begin(sc.key()+fmt.Sprint(script), len(o.trace) > 0, "mode:scripted")
+		tagCreation(r, sc)
 		r.Diff(o.line, o.impl)
 		judge(r, o)
 	}
+	lap("scripted")
 	n = r.N(120, 3000)
+	var freeScs []scenario
+	var freeKeys []string
 	for i := 0; i < n; i++ {
 		sc := genScenario(rd)
 		sc.dir = rd.Chance(30)
-		o := runScenario(sc, nil, false)
-		r.Begin(sc.key()+fmt.Sprintf("free%d", i), len(o.trace) > 0, "mode:free")
-		r.Diff(o.line, o.impl)
-		judge(r, o)
+		freeScs = append(freeScs, sc)
+		freeKeys = append(freeKeys, sc.key()+fmt.Sprintf("free%d", i))
 	}
+	runFreeIsolated(r, freeScs, freeKeys) // in child processes: a runtime crash there is an oracle failure
+	lap("free")
 	// 4. separate processes sharing one directory back end (flock between processes)
 	n = r.N(4, 150)
 	for i := 0; i < n; i++ {
@@ -193,13 +256,21 @@ func run(r *core.Run) {
 		sc.dir = true
 		o := runProcs(sc)
 		r.Begin(sc.key()+fmt.Sprintf("procs%d", i), len(o.trace) > 0, "mode:procs")
+		tagCreation(r, sc)
 		r.Diff(o.line, o.impl)
 		judge(r, o)
 	}
+	lap("procs")
 	// 4b. two concurrent imports of the same new ring, every schedule
 	runImportRace(r)
+	lap("import-race")
 	// 5. one v1 handle shared by many goroutines
 	runV1Shared(r)
+	lap("v1-shared")
+	// 6. the same under the Go race detector (cache size 2, 8 goroutines), built and run as a child process
+	raceJob.finish(r)
+	lap("v1-race-wait")
+	r.Extra["phase_s"] = phase
 	r.Extra["schedules_enumerated"] = schedules
 	r.Exhaustive = true
 	r.Note("exhaustive part: every interleaving (at back-end-call granularity) of each enumerated two-writer scenario was executed on the real key store and replayed through the model")
